@@ -5,9 +5,11 @@
 //	c08 <kind> <args…> \t <implementation output>
 //
 // that the Lean driver (lean/M3d/Drv/C08.lean) re-computes with exact rationals.
-// All numbers fed to the hierarchy code are small dyadics, so that the float64
-// arithmetic of the code under test (box unions, slab tests, point-to-box
-// distances, squared distances, k-d comparisons) is exact.
+// All numbers fed to the hierarchy code are small dyadics (times powers of two:
+// ray directions, short segments and whole scenes are also generated far below /
+// above unit size), so that the float64 arithmetic of the code under test (box
+// unions, slab tests, point-to-box distances, squared distances, k-d
+// comparisons) is exact.
 //
 // Files: main.go (budget, helpers, aimed query generators), prefilter.go
 // (slab*/pbd*), group.go (group, bvh), hier.go (shapes, query execution, scan),
@@ -16,6 +18,7 @@
 package main
 
 import (
+	"math"
 	"sort"
 	"strconv"
 	"strings"
@@ -342,6 +345,64 @@ func (g *G) aimBoxes(dim int, bs []box) []box {
 // aimed queries
 
 var pow2dirs = []float64{1, -1, 2, -2, 0.5, -0.5, 4, -4, 0.25, -0.25}
+
+// A Ray's direction is NOT required to be a unit vector (`RayCollision.Scale` is "the amount of the ray
+// direction to add"), and a segment query uses `s[1]-s[0]` as direction: directions of every length must give the
+// brute-force answer.  downExps / upExps: σ = 2^-e resp. 2^e multiplies a whole direction (exact; the hits move
+// to the parameters t/σ, every quotient of the slab test is scaled exactly), tinyExps: exponents of single
+// direction components (origin then lies a tiny, exactly representable amount outside a slab).
+var downExps = []int{10, 20, 24, 26, 27, 28, 30, 34, 40, 60, 100}
+var upExps = []int{10, 30, 100}
+var tinyExps = []int{0, 20, 27, 30, 34, 40}
+
+// dirScale: 1 in 60% of the cases, else a power of two far below / above 1.
+func (g *G) dirScale() float64 {
+	switch m := g.Rng.Intn(20); {
+	case m < 12:
+		return 1
+	case m < 18:
+		return math.Ldexp(1, -g.pickI(downExps))
+	default:
+		return math.Ldexp(1, g.pickI(upExps))
+	}
+}
+
+// sceneScaleFar: a power of two far from 1 by which a WHOLE scene (boxes, primitives, points, query, radius) is
+// multiplied: exact in float64, every comparison of the hierarchy code keeps its outcome, so the answers must be
+// those of the unit-size scene (no absolute tolerance may enter a pruning test).
+func (g *G) sceneScaleFar() float64 {
+	return math.Ldexp(1, g.pickI([]int{-40, -30, -27, -20, 20, 30}))
+}
+
+// sceneScale: 1 in 80% of the cases.
+func (g *G) sceneScale() float64 {
+	if g.p(0.8) {
+		return 1
+	}
+	return g.sceneScaleFar()
+}
+
+func (b box) scale(s float64) box { return box{b.lo.scale(s), b.hi.scale(s)} }
+
+func scaleBoxes(bs []box, s float64) []box {
+	if s == 1 {
+		return bs
+	}
+	out := make([]box, len(bs))
+	for i, b := range bs {
+		out[i] = b.scale(s)
+	}
+	return out
+}
+
+func tinyDir(dim int, d V) bool {
+	for a := 0; a < dim; a++ {
+		if d[a] != 0 && math.Abs(d[a]) < 1e-6 {
+			return true
+		}
+	}
+	return false
+}
 var smallDirs = []float64{1, -1, 2, -2, 3, -3, 4, -4, 0.5, -0.5, 1.5, -1.5, 0.25, -0.75, 2.5, -3.5}
 
 // boxPoint: a point related to the box: per axis lo / hi / middle / inside / just outside.
@@ -416,14 +477,20 @@ func (g *G) rayThrough(dim int, t V, b box, exactDiv bool) (o, d V) {
 	case mode == 0: // zero direction
 		return t, V{}
 	case mode <= 5 || exactDiv: // direction from a set, origin = target − s·dir (s<0: box behind)
+		// mixed: components of very different magnitude (±2^k·2^-e per axis; all quotients stay exact): the
+		// origin is then a tiny amount outside a slab that the ray does reach.
+		mixed := g.p(0.2)
 		for a := 0; a < dim; a++ {
 			if g.p(0.4) {
 				continue
 			}
-			if exactDiv {
+			if exactDiv || mixed {
 				d[a] = g.pickF(pow2dirs)
 			} else {
 				d[a] = g.pickF(smallDirs)
+			}
+			if mixed {
+				d[a] = math.Ldexp(d[a], -g.pickI(tinyExps))
 			}
 		}
 		s := g.pickF([]float64{0, 0.5, 1, 1, 2, 4, -1, -0.5})
@@ -563,6 +630,9 @@ func (g *G) aimSeg(dim int, boxes []box) (p, q V) {
 	}
 	if g.p(0.2) {
 		t, d = g.graze(dim, b, false)
+	}
+	if g.p(0.25) { // very short segment (direction s[1]-s[0] far below 1; end points stay exact)
+		d = d.scale(math.Ldexp(1, -g.pickI([]int{10, 20, 26, 27, 28, 30, 34, 40})))
 	}
 	switch g.Rng.Intn(5) {
 	case 0: // ends on the target
